@@ -95,6 +95,13 @@ def base_lines():
           for tm in (rich, base_attrs(), base_attrs())]
     ls.append(req(14, {"op": "activate", "bid": None, "crypto": None, "uid": "1"}, now=1000))
     ls.append(req(14, {"op": "revoke", "bid": None, "crypto": None, "uid": "3", "code": 2}, now=1000))
+    # a fourth object with two names, two groups, two application informations: the row ids of the attribute tables
+    # are now ahead of the object identifiers (whatever keys rows by the wrong column shows at the next restart)
+    two = base_attrs() + [A("Name", "name", "x0", 0, t=1), A("Name", "name", "x1", 1, t=1),
+                          A("Object Group", "text", "g1", 0), A("Object Group", "text", "g3", 1),
+                          {"name": "Application Specific Information", "index": 0, "value": {"k": "appinfo", "ns": "ssl", "d": "x"}},
+                          {"name": "Application Specific Information", "index": 1, "value": {"k": "appinfo", "ns": "ns2", "d": "y"}}]
+    ls.append(req(14, {"op": "create", "bid": None, "crypto": ok16, "otype": 2, "tmpl": T(two)}, now=1000))
     return ls
 
 
@@ -164,10 +171,13 @@ def batch_case(args):
         shutil.copyfile(base_db, db)
         rc, evs, err = run_child(db, line, kill)
         objs, healthy = reopen_dump(db)
-        return {"name": name, "kill": kill, "rc": rc, "events": [e for e in evs if e.get("ev") != "ack"],
+        return {"name": name, "kill": kill, "rc": rc, "events": [e for e in evs if e.get("ev") not in ("ack", "live-dump")],
                 "acked": any(e.get("ev") == "ack" for e in evs),
                 "ack_out": [e.get("out") for e in evs if e.get("ev") == "ack"],
                 "commits_done": sum(1 for e in evs if e.get("ev") == "commit-done"),
+                "live": ([e.get("objs") for e in evs if e.get("ev") == "live-dump"] or [None])[0],
+                "objs_second_restart": reopen_dump(db)[0],
+                "restart_change": RESTART_CHANGES.pop() if RESTART_CHANGES else None,
                 "objs": objs, "healthy": healthy, "stderr": err if rc not in (0, 99) else ""}
     finally:
         shutil.rmtree(wd, ignore_errors=True)
@@ -254,6 +264,14 @@ def batch_part(ctx, pool, base_db, before):
         if r["rc"] != 99:
             ctx.report("c09:child-did-not-die:batch:%s" % name, "child exit code %s at %s: %s" % (r["rc"], k, r["stderr"]), rep)
             continue
+        if r.get("live") is not None and r["objs"] != r["live"]:
+            ctx.report("c09:restart-lost-acknowledged-state:batch:%s" % name,
+                       "batch %s was acknowledged (kill at %s); the living server saw %s, a server restarted on the file sees %s"
+                       % (name, k, diff_objs(r["live"], r["objs"])[0], diff_objs(r["live"], r["objs"])[1]), rep)
+        if r["objs_second_restart"] != r["objs"]:
+            ctx.report("c09:second-restart-differs:batch:%s" % name,
+                       "a second restart on the same file (kill at %s inside batch %s) sees another store than the first: %s"
+                       % (k, name, diff_objs(r["objs"], r["objs_second_restart"])), rep)
         if not r["healthy"]:
             ctx.report("c09:store-unreadable-after-crash:batch:%s" % name,
                        "after a kill at %s inside batch %s the store cannot be listed/read consistently" % (k, name), rep)
@@ -309,6 +327,7 @@ def reopen_dump(db):
     E._scripts = []
     E._item = -1
     E.internal_errors = []
+    raw_before = raw_rows(db)
     E._open()
     try:
         d = E.dump()
@@ -328,7 +347,44 @@ def reopen_dump(db):
         consistent = sorted(base) == sorted(o["uid"] for o in d["objs"])
     finally:
         con.close()
+    # starting a server on the file (and reading everything) writes nothing: the rows of every table are what they
+    # were before the start - asked of SQLite itself, before and after
+    raw_after = raw_rows(db)
+    if raw_after != raw_before:
+        changed = sorted(t for t in set(raw_before) | set(raw_after) if raw_before.get(t) != raw_after.get(t))
+        RESTART_CHANGES.append({"tables": changed,
+                                "lost": {t: [r for r in raw_before.get(t, []) if r not in raw_after.get(t, [])][:4] for t in changed},
+                                "new": {t: [r for r in raw_after.get(t, []) if r not in raw_before.get(t, [])][:4] for t in changed}})
     return d["objs"], (readable and consistent and sorted(int(u) for u in uids) == sorted(o["uid"] for o in d["objs"]))
+
+
+RESTART_CHANGES = []       # informational only: a start-up that tidies orphaned rows is not a violation
+
+
+def diff_objs(a, b):
+    """(what the first store says, what the second says) about the objects on which they differ"""
+    A = {o["uid"]: o for o in (a or [])}
+    B = {o["uid"]: o for o in (b or [])}
+    da, db = {}, {}
+    for u in sorted(set(A) | set(B)):
+        if A.get(u) != B.get(u):
+            keys = sorted(k for k in set(A.get(u) or {}) | set(B.get(u) or {}) if (A.get(u) or {}).get(k) != (B.get(u) or {}).get(k))
+            da[u] = None if u not in A else {k: A[u].get(k) for k in keys}
+            db[u] = None if u not in B else {k: B[u].get(k) for k in keys}
+    return da, db
+
+
+def raw_rows(db):
+    """{table: sorted rows} read with sqlite3 alone (opening the file rolls back a hot journal, as any reader would)"""
+    import sqlite3
+    con = sqlite3.connect(db)
+    try:
+        out = {}
+        for (t,) in con.execute("select name from sqlite_master where type='table' and name not like 'sqlite_%'").fetchall():
+            out[t] = sorted(repr(r) for r in con.execute('select * from "%s"' % t).fetchall())
+        return out
+    finally:
+        con.close()
 
 
 def one_case(args):
@@ -339,10 +395,13 @@ def one_case(args):
         shutil.copyfile(base_db, db)
         rc, evs, err = run_child(db, req(version, item), kill)
         objs, healthy = reopen_dump(db)
-        return {"name": name, "kill": kill, "rc": rc, "events": [e for e in evs if e.get("ev") != "ack"],
+        return {"name": name, "kill": kill, "rc": rc, "events": [e for e in evs if e.get("ev") not in ("ack", "live-dump")],
                 "acked": any(e.get("ev") == "ack" for e in evs),
                 "ack_out": [e.get("out") for e in evs if e.get("ev") == "ack"],
                 "committed_seen": any(e.get("ev") == "commit-done" for e in evs),
+                "live": ([e.get("objs") for e in evs if e.get("ev") == "live-dump"] or [None])[0],
+                "objs_second_restart": reopen_dump(db)[0],
+                "restart_change": RESTART_CHANGES.pop() if RESTART_CHANGES else None,
                 "objs": objs, "healthy": healthy, "stderr": err if rc not in (0, 99) else ""}
     finally:
         shutil.rmtree(wd, ignore_errors=True)
@@ -390,6 +449,14 @@ def run(ctx):
             if r["rc"] not in (99,):
                 ctx.report("c09:child-did-not-die:%s" % n, "child exit code %s at %s: %s" % (r["rc"], k, r["stderr"]), rep)
                 continue
+            if r.get("live") is not None and r["objs"] != r["live"]:
+                ctx.report("c09:restart-lost-acknowledged-state:%s" % n,
+                           "%s was acknowledged (kill at %s); the living server saw %s, a server restarted on the file sees %s"
+                           % (n, k, diff_objs(r["live"], r["objs"])[0], diff_objs(r["live"], r["objs"])[1]), rep)
+            if r["objs_second_restart"] != r["objs"]:
+                ctx.report("c09:second-restart-differs:%s" % n,
+                           "a second restart on the same file (kill at %s of %s) sees another store than the first: %s"
+                           % (k, n, diff_objs(r["objs"], r["objs_second_restart"])), rep)
             if not r["healthy"]:
                 ctx.report("c09:store-unreadable-after-crash:%s" % n,
                            "after a kill at %s of %s the store cannot be listed/read consistently" % (k, n), rep)
